@@ -5,6 +5,7 @@ CONSTANTS
   EvictH = 120
   MaxDeliver = 3
   MaxOther = 1
+  Bursts = {1, 8}
   MaxA = 2
   MaxB = 2
   EpsMax = 2
